@@ -504,7 +504,10 @@ fn parse_entity_decl<'input>(
     let name = s.consume_name()?;
     s.consume_spaces()?;
     if let Some(definition) = parse_entity_def(s, is_ge)? {
-        events.token(Token::EntityDeclaration(name, definition))?;
+        // Parameter entities cannot be referenced from the document content.
+        if is_ge {
+            events.token(Token::EntityDeclaration(name, definition))?;
+        }
     }
     s.skip_spaces();
     s.consume_byte(b'>')?;
